@@ -30,7 +30,7 @@ import suite_schemes as S
 LEVEL = "exploration"
 WORKERS = int(os.environ.get("VERIF_WORKERS", "0")) or None
 PART = {0: "whole-line", 1: "keypair-generation", 2: "signature-value", 3: "sign-then-verify", 4: "validation-call", 5: "compress-recover", 6: "key-agreement",
-        7: "planned-branches-not-taken"}
+        7: "planned-branches-not-taken", 8: "point-xpoint-overlap"}
 RETRY_OPS = ("g12sRetry", "bign96Retry", "dstuRetry")
 
 
